@@ -429,7 +429,13 @@ func execOp(h *gorm.DB, base *gorm.DB, op Op, panics *[]string, pmu *sync.Mutex)
 		case "joins":
 			tx = sharedHandle.Joins(fmt.Sprintf("JOIN %s AS px ON px.id = %s.id AND px.id BETWEEN ? AND ?", tbl, tbl), op.Lo, op.Hi).Find(sl)
 		case "orders":
-			tx = sharedHandle.Order("id desc").Where(between, op.Lo, op.Hi).Find(sl)
+			// the orderings of the handle tie; the one added here decides (its direction comes from the op)
+			tx = sharedHandle.Order(map[bool]string{true: "val desc", false: "val"}[op.Val%2 == 0]).Where(between, op.Lo, op.Hi).Find(sl)
+			return done(tx, canon(reflect.ValueOf(sl), 0)+"|order:"+idOrder(reflect.ValueOf(sl)))
+		case "groups":
+			tx = sharedHandle.Group("id").Where(between, op.Lo, op.Hi).Find(sl)
+		case "preloads":
+			tx = sharedHandle.Preload(op.Rel, "id BETWEEN ? AND ?", op.Lo, op.Hi).Where(between, op.Lo, op.Hi).Find(sl)
 		case "scopes":
 			lo, hi := op.Lo, op.Hi
 			tx = sharedHandle.Scopes(func(q *gorm.DB) *gorm.DB { return q.Where(between, lo, hi) }).Find(sl)
@@ -508,7 +514,22 @@ func execOp(h *gorm.DB, base *gorm.DB, op Op, panics *[]string, pmu *sync.Mutex)
 		err := h.Transaction(func(tx *gorm.DB) error {
 			for _, s := range op.Sub {
 				if s.Kind == "tx" {
-					subs = append(subs, "nested-tx-not-run")
+					// a nested block (save point): its error rolls back ITS rows only; the outer block goes on
+					var in []string
+					nerr := tx.Transaction(func(tx2 *gorm.DB) error {
+						for _, s2 := range s.Sub {
+							if s2.Kind == "tx" {
+								continue
+							}
+							r := execOp(tx2, nil, s2, panics, pmu)
+							in = append(in, fmt.Sprintf("%s|%s|%d", r.Err, r.Rows, r.RA))
+						}
+						if s.Fail {
+							return errors.New("rollback-inner")
+						}
+						return nil
+					})
+					subs = append(subs, "nested["+strings.Join(in, " ; ")+"]:"+errText(nerr))
 					continue
 				}
 				th := tx
@@ -1452,7 +1473,13 @@ func buildShared(db *gorm.DB, sh SharedSpec) *gorm.DB {
 		case "wheres":
 			h = h.Where("val >= ?", -k-1)
 		case "orders":
-			h = h.Order(cols[k%3])
+			h = h.Order("name") // every row of a goroutine has the same name: the orderings tie
+		case "groups":
+			h = h.Group([]string{"name", "val"}[k%2])
+		case "preloads":
+			if rels := okRels(sh.T, "has_many"); k < len(rels)-1 {
+				h = h.Preload(rels[k].Field)
+			}
 		case "scopes":
 			kk := -k - 1
 			h = h.Scopes(func(q *gorm.DB) *gorm.DB { return q.Where("val >= ?", kk) })
@@ -1465,29 +1492,51 @@ func buildShared(db *gorm.DB, sh SharedSpec) *gorm.DB {
 // capacity; also 1, 2, 4), every goroutine adds ONE more item with its own arguments, step by step
 // behind the spin barrier, and must get exactly its own rows.
 func genShared(r *lib.Rng, i, g int, thorough bool) DBSpec {
+	// every slice- or map-valued part of a statement in turn, with lengths around the capacity
+	// boundaries (3 and 5..7 leave spare capacity; 1, 2, 4 do not)
+	kinds := []string{"joins", "orders", "groups", "selects", "omits", "wheres", "scopes", "preloads"}
+	kind := kinds[i%len(kinds)]
+	n := []int{3, 5, 7, 6, 1, 2, 4}[(i/len(kinds))%7]
 	singles := Families["single"]
 	t := singles[r.Intn(len(singles))]
-	// every slice-valued part of a statement in turn; lengths with spare capacity (3, 5..7) first
-	kind := []string{"joins", "wheres", "joins", "orders", "joins", "scopes", "joins", "selects", "joins", "omits"}[i%10]
-	n := []int{3, 7, 5, 6, 3, 7, 1, 2, 4}[(i/2)%9]
-	if kind != "joins" {
-		n = lib.Pick(r, []int{3, 5, 6, 7, 3, 7, 1, 2, 4})
+	rel, relT := "", 0
+	if kind == "preloads" {
+		t = poolByName["StHub"]
+		rels := okRels(t, "has_many")
+		rel, relT = rels[len(rels)-1].Field, rels[len(rels)-1].To
+		n = 1 + (i/len(kinds))%2
 	}
 	spec := DBSpec{G: g, Cold: false, PrepareStmt: r.Bool(), Conns: 4, Types: []int{t}, Shared: &SharedSpec{Kind: kind, N: n, T: t}}
-	steps := 8
+	if kind == "preloads" {
+		spec.Types = append([]int{}, Families["star"]...)
+	}
+	if spec.PrepareStmt {
+		spec.Conns = g
+	}
+	steps := 6
 	if thorough {
 		steps = 16
 	}
 	for gi := 0; gi < g; gi++ {
 		base := int64(gi) * idSpan
-		prog := []Op{{Kind: "create_batch", T: t, IDs: []int64{base + 1, base + 2, base + 3}, Name: "s", Val: int64(gi)}}
+		prog := []Op{{Kind: "create_batch", T: t, IDs: []int64{base + 1, base + 2, base + 3}, Name: "s", Val: int64(10 * gi)}}
 		for k := 0; k < steps; k++ {
-			prog = append(prog, Op{Kind: "shared_find", T: t, Lo: base + 1, Hi: base + idSpan - 1})
+			prog = append(prog, Op{Kind: "shared_find", T: t, Lo: base + 1, Hi: base + idSpan - 1, Val: int64(gi + k), Rel: rel, RelT: relT})
 		}
 		spec.Programs = append(spec.Programs, prog)
 	}
 	spec.SyncOps = len(spec.Programs[0])
 	return spec
+}
+
+// idOrder: the ids of a result slice in the order the query returned them
+func idOrder(v reflect.Value) string {
+	v = reflect.Indirect(v)
+	var ids []string
+	for i := 0; i < v.Len(); i++ {
+		ids = append(ids, strconv.FormatInt(reflect.Indirect(v.Index(i)).FieldByName("ID").Int(), 10))
+	}
+	return strings.Join(ids, ",")
 }
 
 // genFailingPrepare: PrepareStmt rounds where, step by step behind the spin barrier, all goroutines
@@ -1590,6 +1639,16 @@ func withSess(h *gorm.DB, sess string) (*gorm.DB, func()) {
 			cfg.PropagateUnscoped, cfg.AllowGlobalUpdate = true, true
 		case "dryrun":
 			cfg.DryRun = true
+		case "nonested":
+			cfg.DisableNestedTransaction = true
+		case "queryfields":
+			cfg.QueryFields = true
+		case "initialized":
+			cfg.Initialized = true
+		case "allowglobal":
+			cfg.AllowGlobalUpdate = true
+		case "logger":
+			cfg.Logger = logger.Discard
 		}
 	}
 	return h.Session(&cfg), done
@@ -1602,7 +1661,8 @@ func runOp(h *gorm.DB, base *gorm.DB, op Op, panics *[]string, pmu *sync.Mutex) 
 	return execOp(hh, base, op, panics, pmu)
 }
 
-var sessFlags = []string{"newdb", "ctx", "skiphooks", "prep", "skipdeftx", "batch", "fullsave", "nowfunc", "propunscoped", "dryrun"}
+// one flag per field of gorm.Session
+var sessFlags = []string{"newdb", "ctx", "skiphooks", "prep", "skipdeftx", "batch", "fullsave", "nowfunc", "propunscoped", "dryrun", "nonested", "queryfields", "initialized", "allowglobal", "logger"}
 
 // sessCombo: one option, a pair (every pair occurs), now and then three
 func sessCombo(r *lib.Rng) string {
@@ -1620,6 +1680,10 @@ func sessCombo(r *lib.Rng) string {
 	}
 	pick := map[string]bool{}
 	var out []string
+	if r.Chance(1, 3) { // a fresh session + one more option: where a copy of the parent's state is easiest to forget
+		pick["newdb"] = true
+		out = append(out, "newdb")
+	}
 	for len(out) < n {
 		f := sessFlags[r.Intn(len(sessFlags))]
 		if f == "dryrun" && r.Chance(2, 3) {
@@ -1748,6 +1812,15 @@ func genSessMix(r *lib.Rng, g int, thorough bool) DBSpec {
 				op = Op{Kind: "update", T: t, ID: base + 1 + int64(r.Intn(int(next)+1)), Val: int64(100 + k)}
 			default:
 				op = Op{Kind: "first", T: t, ID: base + 1, Lo: lo, Hi: hi}
+			}
+			if k%4 == 3 {
+				// outer block with a nested block; the nested one fails half of the time (alone: only
+				// its own rows are rolled back)
+				next += 2
+				op = Op{Kind: "tx", T: t, Fail: r.Chance(1, 5), Sub: []Op{
+					{Kind: "create", T: t, ID: base + next - 1, Name: "outer", Val: next},
+					{Kind: "tx", T: t, Fail: r.Bool(), Sub: []Op{{Kind: "create", T: t, ID: base + next, Name: "inner", Val: next}}},
+					{Kind: "find", T: t, Lo: lo, Hi: hi}}}
 			}
 			if r.Bool() {
 				op.Sess = sessCombo(r)
